@@ -7,7 +7,7 @@ import subprocess, os, re
 import common
 
 class CaseResult:
-    __slots__ = ('name', 'lines', 'impl', 'model', 'abort', 'diff')
+    __slots__ = ('name', 'lines', 'impl', 'model', 'abort', 'diff', 'meta')
     def __init__(self, name, lines):
         self.name, self.lines, self.impl, self.model, self.abort, self.diff = name, lines, [], [], None, None
 
@@ -40,17 +40,29 @@ def run_impl(cases, timeout=600):
         if done == len(todo) and rc == 0:
             return
         if done == len(todo):
-            # every line answered but the process failed at exit: LeakSanitizer or similar
-            c = todo[-1]
-            c.abort = {'rc': rc, 'at_line': None, 'summary': common.sanitizer_summary(err) or err[-300:], 'stderr': err[-3000:], 'at_exit': True}
-            if len(todo) > 1 and rc == 97 or 'LeakSanitizer' in err:
-                # attribute the leak: rerun cases one by one
-                for c2 in todo:
-                    rc2, o2, e2 = _run_chunk(exe, [c2], timeout)
-                    if rc2 != 0:
-                        c2.abort = {'rc': rc2, 'at_line': None, 'summary': common.sanitizer_summary(e2) or e2[-300:], 'stderr': e2[-3000:], 'at_exit': True}
-                    else:
-                        c2.abort = None
+            # every line answered but the process failed at exit (LeakSanitizer): find up to 3 culprits by bisection
+            found = []
+            def bisect(group):
+                if len(found) >= 3 or not group:
+                    return
+                rc2, o2, e2 = _run_chunk(exe, group, timeout)
+                if rc2 == 0:
+                    return
+                if len(group) == 1:
+                    group[0].abort = {'rc': rc2, 'at_line': None, 'summary': common.sanitizer_summary(e2) or e2[-300:],
+                                      'stderr': e2[-3000:], 'at_exit': True}
+                    found.append(group[0]); return
+                h = len(group) // 2
+                bisect(group[:h]); bisect(group[h:])
+            if len(todo) == 1:
+                todo[0].abort = {'rc': rc, 'at_line': None, 'summary': common.sanitizer_summary(err) or err[-300:],
+                                 'stderr': err[-3000:], 'at_exit': True}
+            else:
+                h = len(todo) // 2
+                bisect(todo[:h]); bisect(todo[h:])
+                if not found:
+                    todo[-1].abort = {'rc': rc, 'at_line': None, 'summary': 'exit failure not attributable to one case: ' +
+                                      (common.sanitizer_summary(err) or err[-300:]), 'stderr': err[-3000:], 'at_exit': True}
             return
         c = todo[done]
         k = len(c.impl)
